@@ -50,6 +50,10 @@ def run_conn_check(chk: Check, prop, prop_file, monitors, gen_kwargs, n_quick, n
             why = mon(s)
             if why:
                 chk.violation(f"{prop}:{name}", why, {"scenario": sc, "monitor": name})
+        why = CS.mon_decoy(s, sc)
+        if why:
+            chk.violation(f"{prop}:two-connections", why, {"scenario": sc, "monitor": "two-connections"})
+        dist["with_second_connection"] = dist.get("with_second_connection", 0) + (1 if sc.get("decoy") else 0)
 
     # ---------------------------------------------------------------- model replay
     validated = 0
